@@ -20,10 +20,6 @@ def main(p):
     seen_fail = set()
 
     def fail(cell, kind, cls, detail):
-        lit_text = ''.join(t[1] for t in respath.tokenize(cell['pattern']) if t[0] == 'lit')
-        if '.' in lit_text and (kind in ('roundtrip', 'rebuild') or
-                                (kind == 'near-miss-accepted' and cls.split('|')[0].split(':')[0] in ('wrong-separator', 'empty-variable'))):
-            cls = 'unescaped-dot-in-literal'      # root cause: '.' of the pattern is a regex wildcard
         key = (kind, cls)
         if key in seen_fail:
             return
